@@ -6,6 +6,7 @@ import (
 	"context"
 	"reflect"
 
+	"github.com/go-logr/logr"
 	"k8s.io/client-go/util/workqueue"
 	"sigs.k8s.io/controller-runtime/pkg/client"
 	"sigs.k8s.io/controller-runtime/pkg/event"
@@ -13,6 +14,7 @@ import (
 	"github.com/jcmoraisjr/haproxy-ingress/pkg/controller/config"
 	"github.com/jcmoraisjr/haproxy-ingress/pkg/controller/services"
 	"github.com/jcmoraisjr/haproxy-ingress/pkg/converters/types"
+	hqueue "github.com/jcmoraisjr/haproxy-ingress/pkg/utils/workqueue"
 )
 
 // VerifWatchers drives the watchers without a manager,
@@ -113,3 +115,46 @@ func (v *VerifWatchers) Delete(ctx context.Context, obj client.Object) bool {
 func (v *VerifWatchers) Swap() *types.ChangedObjects {
 	return v.w.getChangedObjects()
 }
+
+// VerifReconciler is the IngressReconciler with the queue SetupWithManager
+// creates, built without a manager. Used by the verification harness only.
+type VerifReconciler struct {
+	r *IngressReconciler
+}
+
+// NewVerifReconciler creates the reconciler, its watchers and its rate limited queue.
+func NewVerifReconciler(ctx context.Context, cfg *config.Config, val services.IsValidResource) *VerifReconciler {
+	r := &IngressReconciler{Config: cfg}
+	r.log = logr.FromContextOrDiscard(ctx).WithName("ingress")
+	r.watchers = createWatchers(ctx, cfg, val)
+	r.queue = workqueue.NewTypedRateLimitingQueueWithConfig(
+		hqueue.IngressReconcilerRateLimiter[rparam](cfg.RateLimitUpdate, cfg.WaitBeforeUpdate),
+		workqueue.TypedRateLimitingQueueConfig[rparam]{Name: "ingress"})
+	return &VerifReconciler{r: r}
+}
+
+// Running marks the watchers as running, as the first reconciliation does.
+func (v *VerifReconciler) Running() { v.r.watchers.getChangedObjects() }
+
+// Notify adds an item the way the event handlers do.
+func (v *VerifReconciler) Notify(fullsync bool) { v.r.queue.AddRateLimited(rparam{fullsync: fullsync}) }
+
+// LeaderChanged calls the subscriber of the leader election.
+func (v *VerifReconciler) LeaderChanged(ctx context.Context, isLeader bool) {
+	v.r.leaderChanged(ctx, isLeader)
+}
+
+// Get takes the next item, as the worker of the controller does.
+func (v *VerifReconciler) Get() (fullsync, shutdown bool) {
+	item, shutdown := v.r.queue.Get()
+	return item.fullsync, shutdown
+}
+
+// Done finishes a successfully reconciled item, as the worker of the controller does.
+func (v *VerifReconciler) Done(fullsync bool) {
+	v.r.queue.Forget(rparam{fullsync: fullsync})
+	v.r.queue.Done(rparam{fullsync: fullsync})
+}
+
+// ShutDown stops the queue.
+func (v *VerifReconciler) ShutDown() { v.r.queue.ShutDown() }
